@@ -244,6 +244,7 @@ def evaluate(pid, run):
             if res.get('partial_api'):
                 fails.append((None, 'only part of the pack helper family is declared for %s' % res['partial_api']))
             exp = {'case.pb-c.c', 'case.pb-c.h'} | ({'dep.pb-c.c', 'dep.pb-c.h'} if 'dep.proto' in run['proto'] else set())
+            exp |= ({'fwd.pb-c.c', 'fwd.pb-c.h'} if 'fwd.proto' in run['proto'] else set())
             if set(res.get('files', [])) != exp:
                 fails.append((None, 'output files %s, expected %s' % (res.get('files'), sorted(exp))))
     lines, impl, model = run['lines'], run['impl'], run['model']
